@@ -252,6 +252,8 @@ class ProxyCursor(object):
     def execute(self, sql, *args):
         ev = _intercept(self._conn, 'execute', sql, args[0] if args else None)
         _call_real(ev, self._real.execute, sql, *args)
+        if sql[:6] in ('UPDATE', 'DELETE'):
+            ev['rc'] = self._real.rowcount
         return self
 
     def executemany(self, sql, seq):
